@@ -768,6 +768,15 @@ class CeiloChunk(AbstractChunk):
             raise AmpycloudError('Slicing not yet done. You cannot find groups without ' +
                                  'finding slices first !')
 
+        # If the layering was already done, refuse *before* touching anything: re-grouping would
+        # otherwise overwrite the group ids (and the slice isolation status) the layers rely on.
+        if self._layers is not None:
+            raise AmpycloudError(
+                'Layering already done.'
+                ' If you find your groups now, you will loose the'
+                ' layering information !'
+            )
+
         # First, make sure that we can keep track of the isolation status of slices.
         self._slices['isolated'] = None
 
